@@ -40,8 +40,8 @@ static void* vp_state(size_t keep)
 {
 	void* p;
 #ifdef VP_STATE_BYTES
-	/* bundles whose sub-states sit at odd offsets (botp: octet stack[] at offset 66/58): a 16-bit-typed object */
-	if (keep % 2 == 0) p = malloc(sizeof(unsigned short) * (keep / 2)); else
+	/* bundles whose sub-states sit at odd offsets (botp: octet stack[] at offset 66/58): an octet-typed object */
+	if (1) p = malloc(keep); else
 #endif
 	if (keep % 8 == 0) p = malloc(sizeof(unsigned long long) * (keep / 8));
 	else if (keep % 4 == 0) p = malloc(sizeof(unsigned) * (keep / 4));
